@@ -3,11 +3,11 @@ EXTENDS Sock, Json
 \* Injection plans for the replay on the real code: at the k-th request of a lookup / put, a third party
 \* injects a message relative to the genuine reply.
 Plans == [scenario : {"lookup", "put"}, k : 0..5,
-          phase : {"before", "after", "duplicate", "late"},
+          phase : {"before", "after", "duplicate", "late", "late_duplicate"},
           source : {"wrong_ip", "wrong_port", "right"},
           tid : {"same", "next", "unknown", "prev"},
           content : {"nodes", "ack", "error301"}]
-PlanOk(p) == /\ (p.phase \in {"duplicate", "late"}) = (p.source = "right" /\ p.tid = "same" /\ p.content = "nodes")
+PlanOk(p) == /\ (p.phase \in {"duplicate", "late", "late_duplicate"}) = (p.source = "right" /\ p.tid = "same" /\ p.content = "nodes")
              /\ (p.source = "right" => p.phase # "before")
 EmitPlans == PrintT(<<"GEN", ToJson({p \in Plans : PlanOk(p)})>>)
 =============================================================================
